@@ -349,4 +349,39 @@ example : openCombinations Ex.ck Ex.polys Ex.rands Ex.comms [ExLC.lcA, ExLC.lcMi
     checkCombinations Ex.vk Ex.comms [ExLC.lcA, ExLC.lcMixed] ExLC.qs ExLC.evals ExLC.proofs ExLC.xis [7]
       = .error .equationHasDegreeBounds := by decide
 
+/-- the honest-triples hypothesis `TripsGood` (of `sonic_lc_honest`, `sonic_lc_defect_iff`, …) and
+the alignment hypothesis of `sonic_lc_verifier_pass` hold on the example: they are what `trim` and
+`commit` give -/
+example : TripsGood Ex.ck Ex.vk (3 : K) 5 2 7 3 1 ExLC.trips :=
+  sonic_lc_base_honest 3 5 2 51 7 Ex.inv 4 3 1 _ Ex.ck Ex.vk Ex.trim_eq Ex.polys true _ Ex.comms Ex.rands _
+    Ex.commit_eq
+example : Aligned ExLC.trips Ex.comms := by
+  have htr := sonic_lc_base_honest (3 : K) 5 2 51 7 Ex.inv 4 3 1 _ Ex.ck Ex.vk Ex.trim_eq Ex.polys true _
+    Ex.comms Ex.rands _ Ex.commit_eq
+  have := aligned_of_good Ex.ck Ex.vk (3 : K) 5 2 7 3 1 _ htr
+  have hc : (labelMap Ex.polys Ex.rands Ex.comms).map (fun (t : Trip K) => t.2.2) = Ex.comms := by decide
+  rw [hc] at this
+  exact this
+/-- the hypotheses of the defect theorems at the first point label (`lcA`, `lcB` at `z = 5`), and of
+`sonic_lc_check_is_batch_check` -/
+example : combineAll ExLC.trips [ExLC.lcA, ExLC.lcB] = .ok (ExLC.combined.take 2) ∧
+    Sonic.open Ex.ck ((ExLC.combined.take 2).map (·.1)) 5 ((ExLC.combined.take 2).map (·.2.1)) ExLC.xis
+      = .ok (⟨72, some 87⟩, [19, 23, 29, 31, 37, 41]) := by decide
+example : combineAllV Ex.comms ExLC.lcs ExLC.evals
+    = .ok (ExLC.combined.map (·.2.2),
+        [(([108, 48], 5), 29), (([108, 48], 9), 85), (([108, 49], 5), 86), (([108, 50], 9), 64),
+         (([108, 50], 5), 86)]) := by decide
+/-- a coefficient change `−4 ↦ −4 + 1` on `p1` (commitment 24, unbounded): the hypotheses of
+`sonic_lc_coefficient_change` -/
+example : lookupLast (fun (c : LComm K) => c.label) [112, 49] Ex.comms = some ⟨[112, 49], 24, none⟩ := by
+  decide
+/-- the hypotheses of the two top-level refusal theorems for `[lcA, lcMixed]` -/
+example : combineAll ExLC.trips [ExLC.lcA] = .ok (ExLC.combined.take 1) ∧
+    combineAllV Ex.comms [ExLC.lcA] ExLC.evals
+      = .ok ([⟨[108, 48], 24, none⟩],
+          [(([108, 48], 5), 29), (([108, 48], 9), 85), (([108, 49], 5), 86), (([108, 50], 9), 65),
+           (([108, 50], 5), 87)]) := ⟨by decide, by decide⟩
+example : ∀ ev, combineLCV Ex.comms ev ExLC.lcMixed = .error .equationHasDegreeBounds :=
+  fun ev => sonic_lc_mixed_refused_verifier Ex.comms ev ExLC.lcMixed (by decide) (by unfold Mixed; decide)
+
 end PCV.C06
